@@ -16,7 +16,10 @@
 
 package vanguard
 
-import "bytes"
+import (
+	"bytes"
+	"net/http"
+)
 
 // Verification hooks (see verif_hooks_on.go). With the "verif" build tag
 // off these are empty and get inlined away.
@@ -26,3 +29,9 @@ func verifPoolGet(*bufferPool, *bytes.Buffer) {}
 func verifPoolPut(*bufferPool, *bytes.Buffer) {}
 
 func verifPoolWrap(*bufferPool, []byte, *bytes.Buffer) {}
+
+func verifServe(w http.ResponseWriter, r *http.Request) (http.ResponseWriter, *http.Request, func()) {
+	return w, r, verifNop
+}
+
+func verifNop() {}
